@@ -69,7 +69,7 @@ InitOps(v) == IF v \in InitViews
                 ELSE {}
 
 \* out-of-range identifier classes for the by-identifier entry points (C11)
-BadIds(v) == { "max", "max+1", "255", "256", "65536", "2^31-1" }
+BadIds(v) == { "max", "max+1", "255", "256", "65536", "2^31-1", "2^31", "2^32-1", "2^32-256" }
              \cup { "256+" \o f : f \in FieldNames(v) }
 BadOps(v) ==
      { Op("badget", v, "", p, Zero64, id) : id \in BadIds(v), p \in Paths(v) \ {"dedicated"} }
